@@ -1407,3 +1407,102 @@ class sp_sptendiag(Contract):
             [i], z3.Implies(z3.And(0 <= i, i < n, T.tz(el.fn(i)) != 0), z3.And(
                 0 <= pos(i), T.tz(pos(i) < m), T.tz(T.as_real(vals.fn(pos(i), 0))) == T.tz(el.fn(i)),
                 T.ForAll([c], z3.Implies(z3.And(0 <= c, c < L), N.relem(rf(pos(i)), c) == i)))), [el.fn(i)])
+
+
+@register
+class sp_set_subscripts(Contract):
+    qual = Q + "_set_subscripts"
+    props = ("C04", "C06")
+    doc = (
+        "S[K] = v for a p x N matrix K of pairwise distinct non-negative subscripts (same order as S) and a column of p "
+        "values: afterwards the extent of every mode is max(old extent, largest assigned subscript + 1) -- also when the "
+        "far-out position receives a zero --, S is well-formed (subscripts inside the new shape, pairwise distinct, no stored "
+        "zero), every assigned position holds its new value (absent if that value is zero) and every other position keeps "
+        "its old value."
+    )
+    inline = ("pyttb.pyttb_utils.tt_subscheck", "pyttb.pyttb_utils.tt_valscheck", Q + "ndims", Q + "nnz")
+
+    @staticmethod
+    def _shape_inv(S, a, env, i):
+        """shape loop: the list built so far holds max(old extent, largest assigned subscript + 1) for the modes done."""
+        lst = env.get("newshape")
+        A = a["__self__"]
+        K = a["key"]
+        p = K.shape[0]
+        old = a["__oldshape__"]
+        if isinstance(lst, list):
+            return S.And(len(lst) == 0, S.eq(i, 0))
+        if not (isinstance(lst, Arr) and lst.ndim == 1):
+            return False
+        m, j = z3.Int("ss!m"), z3.Int("ss!j")
+        v = lambda q: T.tz(lst.fn(q))
+        return S.And(
+            S.eq(lst.shape[0], i),
+            T.ForAll([m], z3.Implies(z3.And(0 <= m, T.tz(m < i)), v(m) >= T.tz(old.fn(m)))),
+            T.ForAll([m, j], z3.Implies(z3.And(0 <= m, T.tz(m < i), 0 <= j, T.tz(j < p)), v(m) >= T.tz(K.fn(j, m)) + 1)),
+            T.ForAll([m], z3.Implies(z3.And(0 <= m, T.tz(m < i)), z3.Or(v(m) == T.tz(old.fn(m)), T.Exists([j], z3.And(0 <= j, T.tz(j < p), v(m) == T.tz(K.fn(j, m)) + 1))))),
+        )
+
+    loops = {0: dict(modifies=["newshape"], inv=lambda S, a, env, i: sp_set_subscripts._shape_inv(S, a, env, i),
+                     havoc=lambda S, a, env, name: Arr.fresh("newshape", (S.nat("nsl"),), "int", "list"))}
+
+    def setup(self, S, case):
+        A = sym_sptensor(S, "A")
+        g = A.ghost
+        p = S.int("p", 1)
+        K = S.row_matrix("K", p, g["N"])
+        j, l, m = z3.Int("ss!j"), z3.Int("ss!l"), z3.Int("ss!m")
+        kf = K.rowfn
+        S.assume(T.ForAll([j, m], z3.Implies(z3.And(0 <= j, j < p, 0 <= m, m < g["N"]), N.relem(kf(j), m) >= 0), [N.relem(kf(j), m)]))
+        S.assume(T.ForAll([j, l], z3.Implies(z3.And(0 <= j, j < l, l < p), kf(j) != kf(l)), [[kf(j), kf(l)]]))
+        V = S.matrix("V", p, 1, "real")
+        # the shape before the call (the receiver is modified in place)
+        old = Arr(A.fields["shape"].shape, N.snap(A.fields["shape"]).fn, "int", "tuple")
+        ov = N.snap(A.fields["vals"])
+        return dict(__self__=A, key=K, value=V, __oldshape__=old, __oldvals__=(lambda k_: T.tz(ov.fn(k_, 0))))
+
+    def ensures(self, S, a, ret):
+        A, K, V, old = a["__self__"], a["key"], a["value"], a["__oldshape__"]
+        g = A.ghost
+        Nn = g["N"]
+        p = K.shape[0]
+        f = A.fields
+        shape = f["shape"]
+        slen, sat = seq_view(shape)
+        m, j = z3.Int("ss!m"), z3.Int("ss!j")
+        yield "shape:same-order", S.eq(slen, Nn)
+        yield "shape:never-shrinks", T.ForAll([m], z3.Implies(z3.And(0 <= m, m < Nn), sat(m) >= T.tz(old.fn(m))))
+        yield "shape:covers-every-assigned-subscript(also-zeros)", T.ForAll(
+            [m, j], z3.Implies(z3.And(0 <= m, m < Nn, 0 <= j, T.tz(j < p)), sat(m) >= T.tz(K.fn(j, m)) + 1))
+        yield "shape:grows-no-further-than-needed", T.ForAll(
+            [m], z3.Implies(z3.And(0 <= m, m < Nn), z3.Or(sat(m) == T.tz(old.fn(m)), T.Exists([j], z3.And(0 <= j, T.tz(j < p), sat(m) == T.tz(K.fn(j, m)) + 1)))))
+        # ---- representation after the write
+        subs, vals = f["subs"], f["vals"]
+        yield "arrays-2-D", subs.ndim == 2 and vals.ndim == 2
+        if subs.ndim != 2 or vals.ndim != 2:
+            return
+        n2 = subs.shape[0]
+        yield "one-value-per-subscript", S.And(S.eq(vals.shape[0], n2), S.eq(vals.shape[1], 1), S.Or(S.eq(n2, 0), S.eq(subs.shape[1], Nn)))
+        rf2 = N.ensure_rows(S.ctx, subs)
+        t, u = z3.Int("ss!t"), z3.Int("ss!u")
+        kf = K.rowfn
+        find, oldvals = g["find"], a["__oldvals__"]
+        v2 = lambda t_: T.tz(T.as_real(vals.fn(t_, 0)))
+        ug = S.body_ghosts.get("unique")
+        if ug:
+            # the assigned subscripts are pairwise distinct, so sorting them (np.unique) is a bijection:
+            # unique row u is key idx(u), key j is unique row inv(j)
+            (mu, uidx, uinv) = ug[-1]
+            yield "lemma:sorted-keys-are-a-bijection-of-the-keys", z3.And(mu == T.tz(p), T.ForAll(
+                [j], z3.Implies(z3.And(0 <= j, T.tz(j < p)), z3.And(0 <= uinv(j), uinv(j) < mu, uidx(uinv(j)) == j)), [kf(j)])), "lemma"
+        yield "stored-subscripts-inside-the-new-shape", T.ForAll(
+            [t, m], z3.Implies(z3.And(0 <= t, T.tz(t < n2), 0 <= m, m < Nn), z3.And(0 <= N.relem(rf2(t), m), N.relem(rf2(t), m) < sat(m))))
+        yield "no-stored-zero", T.ForAll([t], z3.Implies(z3.And(0 <= t, T.tz(t < n2)), v2(t) != 0))
+        yield "an-assigned-position-that-is-stored-holds-its-new-value", T.ForAll(
+            [t, j], z3.Implies(z3.And(0 <= t, T.tz(t < n2), 0 <= j, T.tz(j < p), rf2(t) == kf(j)), v2(t) == T.tz(V.fn(j, 0))), [[rf2(t), kf(j)]])
+        is_key = T.fresh_fun("keypos", N.Row, z3.IntSort())  # Skolem: position of a row among the keys, or -1
+        yield "every-other-stored-position-holds-its-old-value", T.ForAll(
+            [t], z3.Implies(z3.And(0 <= t, T.tz(t < n2)),
+                            z3.Or(T.Exists([j], z3.And(0 <= j, T.tz(j < p), rf2(t) == kf(j))),
+                                  z3.And(find(rf2(t)) >= 0, v2(t) == oldvals(find(rf2(t)))))), [rf2(t)])
+        yield "stored-subscripts-pairwise-distinct", T.ForAll([t, u], z3.Implies(z3.And(0 <= t, t < u, T.tz(u < n2)), rf2(t) != rf2(u)))
